@@ -2114,6 +2114,15 @@ func (s *swamp) CreateTreasure(key string) treasure.Treasure {
 		return v.(treasure.Treasure)
 	}
 
+	// The first Save publishes an in-flight treasure with beaconKey.Add and only then removes it
+	// from the tracker, and it does so without createMu. A Save that ran between the two lookups
+	// above is therefore missed by both (not yet in the beacon at the first, no longer in the
+	// tracker at the second), so look at the beacon once more: a treasure that has left the
+	// tracker through a Save is already visible there.
+	if treasureObj := s.beaconKey.Get(key); treasureObj != nil {
+		return treasureObj
+	}
+
 	t := treasure.New(s.SaveFunction)
 	guardID := t.StartTreasureGuard(true, guard.BodyAuthID)
 	t.BodySetKey(guardID, key)
